@@ -74,6 +74,11 @@ def strategy_(draw, thorough):
         aopts.append({"rgo": draw(frames.row_group_offsets(b["n"])),
                       "compression": draw(st.sampled_from(frames.CODECS)),
                       "via": draw(st.sampled_from(["write", "write", "write_row_groups"]))})
+    if opts.get("write_index") is False and fr0.get("index") is None:
+        # appended frames whose (unwritten) row labels repeat or are out of order, e.g. the result of a concat
+        for a in aopts:
+            if draw(st.integers(0, 2)) == 0:
+                a["row_labels"] = draw(st.lists(st.integers(0, 3), min_size=1, max_size=6))
     keep = draw(st.booleans())
     if keep and len(aopts) >= 2 and draw(st.booleans()):
         for a in aopts:
@@ -171,6 +176,11 @@ def run_case(case):
                 pre_ok = True
             else:
                 ao = case["append_opts"][k - 1]
+                odd_labels = bool(ao.get("row_labels")) and copts.get("write_index") is False and not fr.get("index") and len(df) > 0
+                if odd_labels:
+                    lab = ao["row_labels"]
+                    df.index = [lab[i % len(lab)] for i in range(len(df))]
+                    labels.append("append_with_repeated_row_labels")
                 try:
                     before = _snapshot(path, single)
                 except Exception as e:
@@ -181,6 +191,8 @@ def run_case(case):
                             kw = {"append": True, "file_scheme": scheme, "row_group_offsets": ao["rgo"], "compression": ao["compression"]}
                             if pn:
                                 kw["partition_on"] = pn
+                            if odd_labels:
+                                kw["write_index"] = False
                             fastparquet.write(path, df, **kw)
                             held = None       # a handle opened earlier no longer describes the dataset
                         else:
